@@ -55,6 +55,13 @@ func (s *StorageClient) Set(key string, item *mc.Item, noreply bool) (bool, erro
 	payload.CArray = item.CArray
 	payload.Ver = int32(item.Exptime)
 	payload.TS = uint32(item.ReceiveTime.Unix())
+	if payload.Ver < 0 {
+		// a negative revision is a delete: it stores no value, and the write path only
+		// accounts and frees values of real sets, so release it here
+		cmem.DBRL.SetData.SubSizeAndCount(payload.CArray.Cap)
+		payload.CArray.Free()
+		payload.CArray = cmem.CArray{}
+	}
 
 	tofree = nil
 	err := s.hstore.Set(ki, payload)
